@@ -9,48 +9,51 @@
    implementation (hook go/ir/verif_c18.go) inside coqc.
 
    Definitions only; proofs are in Proofs/C18_Task.v. *)
-From Coq Require Import List Arith Bool.
+From Coq Require Import List Arith NArith Bool.
 Import ListNotations.
 
-Definition task := nat.          (* 0 is the nil *task: "always considered done" *)
+Definition id := N.              (* tasks, waiters and functions are numbered by binary naturals (cheap to compare) *)
+Definition task := id.
+Bind Scope N_scope with id task.          (* 0 is the nil *task: "always considered done" *)
 
-Definition upd {A} (f : nat -> A) (k : nat) (v : A) : nat -> A :=
-  fun k' => if Nat.eqb k' k then v else f k'.
+Definition upd {A} (f : id -> A) (k : id) (v : A) : id -> A :=
+  fun k' => if N.eqb k' k then v else f k'.
 
 (* local state of one execution of (x *task).wait() *)
 Record wstate := mkW {
   w_root : task;                 (* x *)
   w_work : list task;            (* work; enqueued = its element set *)
-  w_idx : nat;                   (* i *)
-  w_closed : bool                (* BFS finished (or fast path taken): wait returns *)
+  w_seen : list task;            (* the elements of work already processed (work[0..i)); the ORDER in which
+                                    the loop takes them is abstracted: any enqueued, unprocessed task may be next *)
+  w_closed : bool                (* loop finished (or fast path taken): wait returns *)
 }.
 
 Record state := mkS {
   done : task -> bool;           (* channel closed *)
   edges : task -> list task;     (* x.edges *)
   trans : task -> bool;          (* x.transitive *)
-  waiter : nat -> option wstate;
-  fns : list (nat * task);       (* shared functions enqueued so far, with the task of their builder (fn.buildshared) *)
-  built : nat -> bool            (* fn.build == nil *)
+  waiter : id -> option wstate;
+  fns : list (id * task);       (* shared functions enqueued so far, with the task of their builder (fn.buildshared) *)
+  built : id -> bool            (* fn.build == nil *)
 }.
 
 Definition init : state :=
-  mkS (fun t => Nat.eqb t 0) (fun _ => []) (fun t => Nat.eqb t 0) (fun _ => None) [] (fun _ => false).
+  mkS (fun t => N.eqb t 0) (fun _ => []) (fun t => N.eqb t 0) (fun _ => None) [] (fun _ => false).
 
 Inductive label :=
 | LAddEdge (x y : task)                        (* x.addEdge(y) inserted y into x.edges *)
 | LAddSkip (x y : task)                        (* x.addEdge(y) returned early *)
 | LMarkDone (x : task)                         (* x.markDone() *)
-| LWaitStart (w : nat) (x : task)              (* x.wait() entered *)
-| LWaitFast (w : nat) (x : task)               (* ... and returned at once: x transitively done *)
-| LWaitSkip (w : nat) (u : task)               (* work[i] found transitively done *)
-| LWaitObserve (w : nat) (u : task) (ys : list task)   (* <-work[i].done returned; ys = u.edges in iteration order *)
-| LWaitClosed (w : nat) (x : task)             (* loop ended; x.transitive.Store(true); return *)
-| LEnqueue (x : task) (f : nat)                (* b.enqueue(fn) with fn.buildshared = x (0: not shared) *)
-| LBuilt (f : nat).                            (* buildFunction finished fn (fn.build = nil) *)
+| LWaitStart (w : id) (x : task)              (* x.wait() entered *)
+| LWaitFast (w : id) (x : task)               (* ... and returned at once: x transitively done *)
+| LWaitSkip (w : id) (u : task)               (* work[i] found transitively done *)
+| LWaitObserve (w : id) (u : task) (ys : list task)   (* <-work[i].done returned; ys = u.edges in iteration order *)
+| LWaitClosed (w : id) (x : task)             (* loop ended; x.transitive.Store(true); return *)
+| LEnqueue (x : task) (f : id)                (* b.enqueue(fn) with fn.buildshared = x (0: not shared) *)
+| LBuilt (f : id).                            (* buildFunction finished fn (fn.build = nil) *)
 
-Definition memb (x : nat) (l : list nat) : bool := existsb (Nat.eqb x) l.
-Definition inclb (a b : list nat) : bool := forallb (fun x => memb x b) a.
+Definition memb (x : id) (l : list id) : bool := existsb (N.eqb x) l.
+Definition inclb (a b : list id) : bool := forallb (fun x => memb x b) a.
 
 (* append to the work list those of ys not yet enqueued, in the order given *)
 Fixpoint enqueue (work ys : list task) : list task :=
@@ -59,46 +62,45 @@ Fixpoint enqueue (work ys : list task) : list task :=
   | y :: ys' => enqueue (if memb y work then work else work ++ [y]) ys'
   end.
 
-Definition cur (ws : wstate) : option task := nth_error (w_work ws) (w_idx ws).
-Definition at_task (ws : wstate) (u : task) : bool :=
-  match cur ws with Some u' => Nat.eqb u' u | None => false end.
+(* u has been enqueued and not processed yet *)
+Definition pending (ws : wstate) (u : task) : bool := memb u (w_work ws) && negb (memb u (w_seen ws)).
 
 Definition owned_built (s : state) (x : task) : bool :=
-  forallb (fun ft => negb (Nat.eqb (snd ft) x) || built s (fst ft)) (fns s).
+  forallb (fun ft => negb (N.eqb (snd ft) x) || built s (fst ft)) (fns s).
 
 Definition guard (s : state) (l : label) : bool :=
   match l with
   | LAddEdge x y => negb (done s x)                      (* edges are added only before markDone *)
-  | LAddSkip x y => Nat.eqb x y || trans s y
+  | LAddSkip x y => N.eqb x y || trans s y
   | LMarkDone x => negb (done s x) && owned_built s x    (* iterate: every enqueued function is built first *)
   | LWaitStart w x => match waiter s w with None => true | Some _ => false end
   | LWaitFast w x =>
       match waiter s w with
-      | Some ws => negb (w_closed ws) && Nat.eqb (w_root ws) x && Nat.eqb (w_idx ws) 0 && trans s x
+      | Some ws => negb (w_closed ws) && N.eqb (w_root ws) x && trans s x
       | None => false
       end
   | LWaitSkip w u =>
       match waiter s w with
-      | Some ws => negb (w_closed ws) && at_task ws u && trans s u
+      | Some ws => negb (w_closed ws) && pending ws u && trans s u
       | None => false
       end
   | LWaitObserve w u ys =>
       match waiter s w with
-      | Some ws => negb (w_closed ws) && at_task ws u && done s u   (* blocks until u is done *)
+      | Some ws => negb (w_closed ws) && pending ws u && done s u   (* blocks until u is done *)
                    && inclb ys (edges s u) && inclb (edges s u) ys  (* then reads u.edges *)
       | None => false
       end
   | LWaitClosed w x =>
       match waiter s w with
-      | Some ws => negb (w_closed ws) && Nat.eqb (w_root ws) x && Nat.eqb (w_idx ws) (length (w_work ws))
+      | Some ws => negb (w_closed ws) && N.eqb (w_root ws) x && inclb (w_work ws) (w_seen ws)   (* i = len(work) *)
       | None => false
       end
   | LEnqueue x f =>
-      Nat.eqb x 0 || (negb (done s x) && negb (existsb (fun ft => Nat.eqb (fst ft) f) (fns s)))
+      N.eqb x 0 || (negb (done s x) && negb (existsb (fun ft => N.eqb (fst ft) f) (fns s)))
   | LBuilt f => negb (built s f)                         (* a function body is built once *)
   end.
 
-Definition set_waiter (s : state) (w : nat) (ws : wstate) : state :=
+Definition set_waiter (s : state) (w : id) (ws : wstate) : state :=
   mkS (done s) (edges s) (trans s) (upd (waiter s) w (Some ws)) (fns s) (built s).
 
 Definition effect (s : state) (l : label) : state :=
@@ -108,31 +110,31 @@ Definition effect (s : state) (l : label) : state :=
           (trans s) (waiter s) (fns s) (built s)
   | LAddSkip _ _ => s
   | LMarkDone x => mkS (upd (done s) x true) (edges s) (trans s) (waiter s) (fns s) (built s)
-  | LWaitStart w x => set_waiter s w (mkW x [x] 0 false)
+  | LWaitStart w x => set_waiter s w (mkW x [x] [] false)
   | LWaitFast w _ =>
       match waiter s w with
-      | Some ws => set_waiter s w (mkW (w_root ws) (w_work ws) (w_idx ws) true)
+      | Some ws => set_waiter s w (mkW (w_root ws) (w_work ws) (w_seen ws) true)
       | None => s
       end
-  | LWaitSkip w _ =>
+  | LWaitSkip w u =>
       match waiter s w with
-      | Some ws => set_waiter s w (mkW (w_root ws) (w_work ws) (S (w_idx ws)) false)
+      | Some ws => set_waiter s w (mkW (w_root ws) (w_work ws) (u :: w_seen ws) false)
       | None => s
       end
-  | LWaitObserve w _ ys =>
+  | LWaitObserve w u ys =>
       match waiter s w with
-      | Some ws => set_waiter s w (mkW (w_root ws) (enqueue (w_work ws) ys) (S (w_idx ws)) false)
+      | Some ws => set_waiter s w (mkW (w_root ws) (enqueue (w_work ws) ys) (u :: w_seen ws) false)
       | None => s
       end
   | LWaitClosed w x =>
       match waiter s w with
       | Some ws =>
           mkS (done s) (edges s) (upd (trans s) x true)
-              (upd (waiter s) w (Some (mkW (w_root ws) (w_work ws) (w_idx ws) true))) (fns s) (built s)
+              (upd (waiter s) w (Some (mkW (w_root ws) (w_work ws) (w_seen ws) true))) (fns s) (built s)
       | None => s
       end
   | LEnqueue x f =>
-      if Nat.eqb x 0 then s
+      if N.eqb x 0 then s
       else mkS (done s) (edges s) (trans s) (waiter s) ((f, x) :: fns s) (built s)
   | LBuilt f => mkS (done s) (edges s) (trans s) (waiter s) (fns s) (upd (built s) f true)
   end.
@@ -159,5 +161,5 @@ Definition closed_done (s : state) (x : task) : Prop :=
 Definition closed_built (s : state) (x : task) : Prop :=
   forall y f, reach s x y -> In (f, y) (fns s) -> built s f = true.
 
-Definition returned (s : state) (w : nat) (x : task) : Prop :=
+Definition returned (s : state) (w : id) (x : task) : Prop :=
   exists ws, waiter s w = Some ws /\ w_closed ws = true /\ w_root ws = x.
